@@ -107,7 +107,9 @@ namespace MEDDLY {
             return false;
         }
         inline static bool stopOnEqualArgs() {
-            return true;
+            // x-x is 0 only where x is finite; where x is infinite we must
+            // reach the terminals and report SUBTRACT_INFINITY.
+            return false;
         }
         inline static void makeEqualResult(int L, unsigned in,
                 const forest* fa, node_handle a,
@@ -124,7 +126,9 @@ namespace MEDDLY {
         {
             MEDDLY_DCASSERT(OMEGA_INFINITY != b);
             if (fa->isIdentityReduced()) return false;
-            return (OMEGA_INFINITY == a) || (OMEGA_NORMAL == b);
+            // a-0 is a; but infinity-b is infinity only where b is finite,
+            // so an infinite a cannot short-circuit the check of b.
+            return (OMEGA_NORMAL == b);
         }
         inline static bool simplifiesToSecondArg(int L,
                 const forest* fa, node_handle a,
